@@ -14,6 +14,9 @@ type (
 		objectsHead *signalListTuple
 		objectsTail *signalListTuple
 		id          int // debugging only
+
+		// names of the objects the client waits for (kept after the signal left their queues)
+		names []string
 	}
 
 	// signalListTuple connects a waiting client to a queue the client's signal is in; the
@@ -133,6 +136,7 @@ func (ref *signalListTuple) unlink() (listEmpty bool) {
 // can wait on ws.ready channel
 func (wt *waitTable) enterWait(name string) (ws *wakeSignal) {
 	ws = newWakeSignal()
+	ws.names = []string{name}
 
 	list, exists := wt.table[name]
 	if !exists {
@@ -150,6 +154,7 @@ func (wt *waitTable) enterWait(name string) (ws *wakeSignal) {
 // wait on ws.ready channel
 func (wt *waitTable) enterMultiWait(names []string) (ws *wakeSignal) {
 	ws = newWakeSignal()
+	ws.names = names
 
 	// get in each object's list
 	for _, name := range names {
